@@ -48,7 +48,9 @@ def strategy_case(draw):
                 N[k] = 2
         dims = [m * n for m, n in zip(M, N)]
     else:
-        N = [draw(st.integers(2, 4)) for _ in range(d)]
+        N = [draw(st.sampled_from([1, 2, 2, 3, 3, 4])) for _ in range(d)]
+        if all(n == 1 for n in N):
+            N[0] = 2
         M = None
         dims = list(N)
     R = clip_ranks(dims, draw(gen.ranks(d, 3, rank1_bias=0.05)))
@@ -143,7 +145,8 @@ def execute(case):
     if uranks != list(R):
         ck.label("skipped_nonminimal")
         return ck.verdict()
-    tol = 1e-12 * kappa
+    tol = 1e-12 * kappa      # sensitivity of the tangent space itself: only for comparisons with the checker's own projector
+    tol0 = 1e-11             # algebraic identities of the library's projector (idempotence, linearity, ...) do not depend on kappa
     nx = fro(Xm)
 
     def D(t):
@@ -173,13 +176,13 @@ def execute(case):
         a, b = case["alpha"], case["beta"]
         comb = z * a + w * b
         Pc = lib(lambda: T.manifold.riemannian_projection(x, comb))
-        ck.bound(fro(D(Pc) - (a * Pzd + b * Pwd)), tol * (abs(a) * nz + abs(b) * nw), "linearity")
+        ck.bound(fro(D(Pc) - (a * Pzd + b * Pwd)), tol0 * (abs(a) * nz + abs(b) * nw), "linearity")
         PPz = lib(lambda: T.manifold.riemannian_projection(x, Pz))
-        ck.bound(fro(D(PPz) - Pzd), tol * nz, "idempotence")
-        ck.bound(abs(float((Pzd * Wm).sum() - (Zm * Pwd).sum())), tol * nz * nw, "self_adjoint")
+        ck.bound(fro(D(PPz) - Pzd), tol0 * nz, "idempotence")
+        ck.bound(abs(float((Pzd * Wm).sum() - (Zm * Pwd).sum())), tol0 * nz * nw, "self_adjoint")
         Px = lib(lambda: T.manifold.riemannian_projection(x, x))
-        ck.bound(fro(D(Px) - Xm), tol * nx, "fixes_x")
-        ck.bound(abs(float(((Zm - Pzd) * Pwd).sum())), tol * nz * nw, "residual_orthogonal")
+        ck.bound(fro(D(Px) - Xm), tol0 * nx, "fixes_x")
+        ck.bound(abs(float(((Zm - Pzd) * Pwd).sum())), tol0 * nz * nw, "residual_orthogonal")
         ck.nontrivial = any(r >= 2 for r in R[1:-1]) and fro(Zm - Pzd) > 1e-3 * nz
         return ck.verdict()
 
